@@ -52,19 +52,40 @@ def relation_traces(ctx, T):
                      "points": {"x": [float(v) for v in xs], "forward": [float(v) for v in y]}})
         ctx.count({"t": label, "k": "mono"}, True)
         lo, hi = xs[0], xs[-1]
-        for x in xs[1:-1:2]:
+        # stencil centres: every second grid point, plus the integers inside the grid (handed over as Python ints in a list / tuple)
+        centres = [(float(x), "array") for x in xs[1:-1:2]]
+        centres += [(float(v), "intlist") for v in (-3, -2, -1, 1, 2, 3, 5, 8) if lo < v < hi][:3]
+        for x, how in centres:
             k = int(math.floor(math.log2(abs(x) / 64.0))) if x != 0 else -10
+            k = min(k, int(math.floor(math.log2((hi - lo) / 64.0))))       # narrow domains (Logit between huge bounds): step from the width
             h = 2.0 ** k
             if x - 2 * h <= lo or x + 2 * h >= hi or any(abs(x - b) <= 4 * h for b in bps):
                 continue
             pts = np.array([x - 2 * h, x - h, x + h, x + 2 * h])
+            if not (pts[1] - pts[0] == h and pts[2] - pts[1] == 2 * h and pts[3] - pts[2] == h):
+                continue          # the stencil points are not exactly representable
             f = tc.quiet(t.forward, pts.copy())
-            j = tc.quiet(t.jacobian, np.array([x]))
-            mf, mj = [tc.mant(v) for v in f], tc.mant(np.ravel(j)[0])
-            recs.append({"kind": "jac", "label": label, "bad": any(v is None for v in mf) or mj is None, "k": k,
+            nj = len(recs)
+            if how == "intlist":
+                arg = [int(x)] if nj % 2 else (int(x), int(x))
+            else:
+                import pandas as pd
+                arg = [np.array([x]), [x], pd.Series([x, x]), np.asfortranarray(np.array([[x, x], [x, x]])), (x,), np.array([x, x, x])[::2]][nj % 6]
+            try:
+                j = tc.quiet(t.jacobian, arg)
+            except tc.LAYOUT_ERRORS:
+                j = tc.quiet(t.jacobian, np.array([x]))       # container not accepted by this transform
+                how = "array"
+            jv = np.ravel(np.asarray(j, dtype=float))
+            if len(jv) == 0 or np.any(jv != jv[0]) and not np.all(np.isnan(jv)):
+                ctx.violation("%s:jacobian-container" % label.split("(")[0], "jacobian of %r = %r (identical points, different values)" % (arg, jv.tolist()),
+                              {"transform": label, "x": x})
+                continue
+            mf, mj = [tc.mant(v) for v in f], tc.mant(jv[0])
+            recs.append({"kind": "jac", "label": label + ("@intlist" if how == "intlist" else ""), "bad": any(v is None for v in mf) or mj is None, "k": k,
                          "f": [v or [0, 0] for v in mf], "J": mj or [0, 0],
-                         "points": {"x": float(x), "h": h, "f": [float(v) for v in f], "jacobian": float(np.ravel(j)[0])}})
-            ctx.count({"t": label, "x": float(x)}, True)
+                         "points": {"x": float(x), "h": h, "f": [float(v) for v in f], "jacobian": float(jv[0]), "argument": repr(arg)[:80]}})
+            ctx.count({"t": label, "x": float(x), "how": how}, True)
     nrej, ninc = tc.validate(ctx, recs, "C02")
     ctx.traces += len(recs)
     njac = sum(1 for r in recs if r["kind"] == "jac")
